@@ -54,6 +54,7 @@ let handle (line : string) : string =
     let rec take k l = if k = 0 then [] else match l with [] -> [] | x :: t -> x :: take (k - 1) t in
     Printf.sprintf "%s | buf=%d head=%s alive=%s frag=%d" (String.concat " " (List.map event_s evs))
       (List.length buf) (hex_of_bytes (take 14 buf)) (bool_s s.w_alive) (if s.w_alive then List.length s.w_frag else 0)
+  | "RU" :: _ -> "UNMODELLED"       (* the HTTP upgrade handshake is judged by the Python oracle only *)
   | _ -> "BADCASE"
 
 let () = run_cases handle
